@@ -518,7 +518,7 @@ func (x *c04) r3() {
 		for _, cg := range correlatedIfs(g, z) {
 			cg := cg
 			if len(cg.Ifs) == 2 {
-				f, _ := condFact(g.Ins[cg.Ifs[0]].(*ssa.If).Cond, true)
+				f, _ := condFact(g.Cond(cg.Ifs[0]), true)
 				if f.Op == token.NEQ && (x.isPDTRoot(fn, f.X, 0) && x.isPDTRoot(fn, f.Y, 0)) {
 					grp = &cg
 				}
@@ -530,7 +530,7 @@ func (x *c04) r3() {
 			c.fail("C04.R3", "active-untouched "+m.fnName(fn), "not evaluated", m.pos(fn.Pos()))
 			continue
 		}
-		f0, _ := condFact(g.Ins[grp.Ifs[0]].(*ssa.If).Cond, true)
+		f0, _ := condFact(g.Cond(grp.Ifs[0]), true)
 		var activeV ssa.Value // the operand derived from activePDTFn
 		for _, v := range []ssa.Value{f0.X, f0.Y} {
 			if _, ok := m.resultOf(stripConvShift(v), x.activePDT, -1); ok {
